@@ -971,6 +971,7 @@ void flexinit (int argc, char **argv)
 
 		    case OPT_NEVER_INTERACTIVE:
 			ctrl.never_interactive = true;
+			ctrl.interactive = trit_false;
 			break;
 
 		    case OPT_ARRAY:
